@@ -175,8 +175,9 @@ def _compile(mode, opts):
         q = '"(?:[\\x01-\\x0c\\x0e-\\x21\\x23-\\x5b\\x5d-\\x7f]|\\\\[\\x01-\\x7f]|\\r\\n[ \\t])*"'
     elif like5322:
         ws = " \\t\\r\\n"
-        q = ('"(?:[%s%s%s]|\\\\[\\x01-\\x7f]|(?<=["%s])[%s]|[%s](?=["%s]))*"'
-             % (_cls(_QTEXT_PRINT), _cls(_NOWSCTL), nonascii, ws, ws, ws, ws))
+        # the two whitespace alternatives are mutually exclusive (no ambiguity -> no exponential backtracking)
+        q = ('"(?:[%s%s%s]|\\\\[\\x01-\\x7f]|(?<=["%s])[%s]|(?<!["%s])[%s](?=["%s]))*"'
+             % (_cls(_QTEXT_PRINT), _cls(_NOWSCTL), nonascii, ws, ws, ws, ws, ws))
     else:   # 5321, 6531 default
         q = '"(?:[\\x20%s%s]|\\\\[\\x20-\\x7e])*"' % (_cls(_QTEXT_PRINT), nonascii)
     word = "(?:%s|%s)" % (atom, q)
